@@ -373,4 +373,127 @@ theorem mapM_kinds (kinds : List (Option AggKind)) (n : Nat) (G : AggCol → Nat
   | nil => rfl
   | cons k ks ih => simp only [List.map_cons, List.zipIdx_cons, List.mapM_cons, ih]
 
+/-! ## (3) `finishAll`, `run` -/
+
+theorem Chain.feed_eq_feedStop (c : Chain) (rows : List Row) :
+    c.feed rows = (c.feedStop (rows.map (fun r => (([] : List Val), r)))).1 := by
+  induction rows generalizing c with
+  | nil => rfl
+  | cons r rs ih =>
+    rw [Chain.feed, List.map_cons, Chain.feedStop]
+    rcases hw : c.write [] r with ⟨c', ok⟩
+    cases ok
+    · simp
+    · simp only [if_true]
+      exact ih c'
+
+theorem buildChain_allows_agg (q : SemQuery) (sink : Sink) (hsel : q.isUpdate = false)
+    (ho : q.orderBy = none) (hd : q.distinct = .no) :
+    (buildChain q sink).forbidsAggregation = false := by
+  simp [buildChain, hsel, ho, hd, Chain.forbidsAggregation]
+
+/-- feeding the aggregated rows to the chain `TopWriter?(user writer)` and finishing it -/
+theorem feed_finish_rows (q : SemQuery) (hsel : q.isUpdate = false) (ho : q.orderBy = none)
+    (hd : q.distinct = .no) (rows : List Row) :
+    (((buildChain q {}).feed rows).finish).getSink.rows.reverse = truncSpec q.top rows := by
+  rw [Chain.feed_eq_feedStop, chain_select_spec q hsel _ {} rfl]
+  simp [selectSpec, dedupSpec, orderSpec, ho, hd, List.map_map, Function.comp_def]
+
+theorem finishAll_agg (q : SemQuery) (hsel : q.isUpdate = false) (ho : q.orderBy = none)
+    (hd : q.distinct = .no) (ag : Option AggState) :
+    (finishAll (({ chain := buildChain q {} } : LoopState).withAgg ag)).getSink.rows.reverse =
+      match ag with
+      | none => []
+      | some ag => truncSpec q.top ((ag.keys.mergeSort keyLe).map (fun k =>
+          ag.cols.map (fun c => ((lookupAcc c.stats k).map Acc.final).getD Val.none))) := by
+  cases ag with
+  | none =>
+    have := feed_finish_rows q hsel ho hd []
+    simp only [finishAll, LoopState.withAgg]
+    rw [show (buildChain q {}).feed [] = buildChain q {} from rfl] at this
+    rw [this]
+    cases q.top <;> simp [truncSpec]
+  | some ag =>
+    simp only [finishAll, LoopState.withAgg]
+    exact feed_finish_rows q hsel ho hd _
+
+/-- `run` unfolded for a SELECT without ORDER BY (GROUP BY allowed) -/
+theorem run_unfold_agg (q : SemQuery) (A B : Table) (hsel : q.isUpdate = false) (ho : q.orderBy = none)
+    (hjb : ∀ js, q.join = some js → joinBError js.rhs B = none) :
+    ∃ jm, run q A B = runWith q A B jm ∧
+      ∀ js, q.join = some js → (jm.maxLen = maxWidth B ∧
+        ∀ key, jm.get key = (partnersSpec js.rhs B key).map (fun p => (p.1, p.2.length, p.2))) := by
+  cases hj : q.join with
+  | none =>
+    refine ⟨{}, ?_, fun js h => by cases h⟩
+    unfold run runWith
+    simp only [ho, hsel, hj, Option.isSome_none, Bool.or_self, Bool.and_false, Bool.false_eq_true, if_false]
+    cases h : mainLoop q {} A 0 { chain := buildChain q {} } with
+    | error p => obtain ⟨e, st, n⟩ := p; rfl
+    | ok p => obtain ⟨st, n⟩ := p; simp
+  | some js =>
+    obtain ⟨jm, h1, h2, h3⟩ := joinMap_build_ok js.rhs B (hjb js hj)
+    refine ⟨jm, ?_, fun js' h => by cases h; exact ⟨h2, h3⟩⟩
+    unfold run runWith
+    simp only [ho, hsel, hj, Option.isSome_none, Bool.or_self, Bool.and_false, Bool.false_eq_true, if_false, h1]
+    cases h : mainLoop q jm A 0 { chain := buildChain q {} } with
+    | error p => obtain ⟨e, st, n⟩ := p; rfl
+    | ok p => obtain ⟨st, n⟩ := p; simp
+
+/-- the aggregation state the loop ends with, when every column fold of `aggRowsSpec` succeeds -/
+theorem aggFeed_of_spec (q : SemQuery) (kr0 : List Val × Row × Env) (rest : List (List Val × Row × Env))
+    (hw : ∀ kr ∈ kr0 :: rest, kr.2.1.length = (aggColKinds q.items kr0.2.2).length)
+    (cols : List AggCol)
+    (hc : ((aggColKinds q.items kr0.2.2).zipIdx).mapM (fun p =>
+      foldIncr { kind := p.1 } ((kr0 :: rest).map (fun kr => (kr.1, kr.2.1.getD p.2 Val.none)))) = .ok cols) :
+    aggFeed q none (kr0 :: rest) =
+      .ok (some { cols := cols, keys := distinctKeys ((kr0 :: rest).map (·.1)) }) := by
+  rw [mapM_kinds (aggColKinds q.items kr0.2.2) 0
+    (fun c i => foldIncr c ((kr0 :: rest).map (fun kr => (kr.1, kr.2.1.getD i Val.none))))] at hc
+  have hfa := foldAll_of_columns (kr0 :: rest) _ cols
+    (fun kr hkr => by rw [List.length_map]; exact hw kr hkr) hc
+  rw [aggFeed_none q kr0 rest cols hfa, addKeys_singleton, List.map_cons]
+
+/-- Master theorem for aggregate queries: one exact result row per group, in ascending key order. -/
+theorem run_agg_eq_spec (q : SemQuery) (A B : Table)
+    (hsel : q.isUpdate = false) (hagg : q.isAgg = true) (ho : q.orderBy = none) (hd : q.distinct = .no)
+    (hx : q.exceptCols = none)
+    (hjb : ∀ js, q.join = some js → joinBError js.rhs B = none)
+    (krs : List (List Val × Row × Env)) (hk : aggEmissions q B A 0 = .ok krs)
+    (hw : ∀ kr ∈ krs, ∀ kr0 ∈ krs.head?, kr.2.1.length = (aggColKinds q.items kr0.2.2).length)
+    (rows : List Row) (hr : aggRowsSpec q krs = .ok rows) :
+    (run q A B).error = none ∧ (run q A B).rows = rows := by
+  obtain ⟨jm, hrun, hchar⟩ := run_unfold_agg q A B hsel ho hjb
+  have hf := buildChain_allows_agg q {} hsel ho hd
+  -- the aggregation state at the end of the loop
+  have hfeed : ∃ ag', aggFeed q none krs = .ok ag' ∧
+      (match ag' with
+        | none => []
+        | some ag => truncSpec q.top ((ag.keys.mergeSort keyLe).map (fun k =>
+            ag.cols.map (fun c => ((lookupAcc c.stats k).map Acc.final).getD Val.none)))) = rows := by
+    cases krs with
+    | nil =>
+      simp only [aggRowsSpec, Except.ok.injEq] at hr
+      exact ⟨none, rfl, hr⟩
+    | cons kr0 rest =>
+      obtain ⟨k0, r0, e0⟩ := kr0
+      simp only [aggRowsSpec] at hr
+      cases hc : ((aggColKinds q.items e0).zipIdx).mapM (fun p =>
+          foldIncr { kind := p.1 } (((k0, r0, e0) :: rest).map (fun kr => (kr.1, kr.2.1.getD p.2 Val.none)))) with
+      | error x => rw [hc] at hr; simp [bind, Except.bind] at hr
+      | ok cols =>
+        simp only [hc, bind, Except.bind, pure, Except.pure, Except.ok.injEq] at hr
+        refine ⟨_, aggFeed_of_spec q (k0, r0, e0) rest
+          (fun kr hkr => hw kr hkr (k0, r0, e0) (by simp)) cols hc, ?_⟩
+        exact hr
+  obtain ⟨ag', hfd, hrows⟩ := hfeed
+  have hml := mainLoop_agg q B jm hsel hagg hx hchar A 0 { chain := buildChain q {} } rfl rfl hf
+    krs hk ag' hfd
+  rw [hrun]
+  unfold runWith
+  rw [hml]
+  refine ⟨rfl, ?_⟩
+  show (finishAll _).getSink.rows.reverse = rows
+  rw [finishAll_agg q hsel ho hd ag', hrows]
+
 end Rbql
